@@ -1,0 +1,11 @@
+//go:build !verif
+
+package graph
+
+// No-op verification hooks (enabled with the `verif` build tag).
+
+func verifBeforeFile(string) {}
+
+func verifOnMerge(*CodeGraph) {}
+
+func verifCountOp() {}
